@@ -466,9 +466,10 @@ def ePower (a b : NV) : Res :=
   | .unmod, _ => .ok .unmod
   | _, .unmod => .ok .unmod
   | a, b =>
-    -- float(a) if isinstance(a, (int, np.integer)) else a
+    -- backend.power: an integer atom and an integer array are converted to float
     let a' : NV := match a with
       | .sc (.int n) => .sc (Sc.ofFloat (Float.ofInt n))
+      | .arr x => .arr ⟨x.shape, x.data.map Sc.toReal⟩
       | a => a
     match genBin scPow scPow false a' b with
     | .raised => .raised
@@ -563,20 +564,32 @@ def scan1 (g : NV → NV → Res) : List NV → List Res
       let n := acc.1.bind fun a => g a y
       (n, acc.2 ++ [n])) (.ok x, [.ok x])).2
 
-/-- `ufunc.reduce(a)` along axis 0 for a non-empty list: elements of an object array are combined
-    with the Python operator, rows of a numeric array with the ufunc -/
-def ufuncReduce (op : AOp) (a : NV) : Res :=
+/-- fold `g` over the items of a non-empty list (one item: the item itself) -/
+def foldItems (g : NV → NV → Res) (a : NV) : Res :=
   match items a with
   | [] => .raised
   | [x] => .ok x
-  | xs =>
-    match a with
-    | .arr _ => fold1 (npBin op) xs
-    | .obj _ => (match op with
-        | .max => .ok .unmod
-        | .min => .ok .unmod
-        | _ => fold1 (pyBin op) xs)
-    | _ => .raised
+  | xs => fold1 g xs
+
+/-- `ufunc.reduce(a)` along axis 0 for a non-empty list: elements of an object array are combined
+    with the Python operator, rows of a numeric array with the ufunc -/
+def ufuncReduce (op : AOp) (a : NV) : Res :=
+  match a with
+  | .arr _ => foldItems (npBin op) a
+  | .obj _ => (match op with
+      | .max => .ok .unmod
+      | .min => .ok .unmod
+      | _ => foldItems (pyBin op) a)
+  | _ => .raised
+
+/-- adverbs.py Max-Over / Min-Over of a non-atom: `np.max` / `np.min` for a numeric vector, otherwise
+    `functools.reduce` of the dyad (`np.maximum` / `np.minimum`) over the items — for a numeric vector the
+    two coincide -/
+def overMinMax (op : AOp) (a : NV) : Res :=
+  match a with
+  | .arr _ => foldItems (npBin op) a
+  | .obj _ => foldItems (npBin op) a
+  | _ => .raised
 
 /-- rebuild an array / object array from the results of a scan over the items of `a` -/
 def restack (a : NV) (rs : List Res) : Res :=
@@ -617,8 +630,8 @@ def kgOver (op : String) (a : NV) : Res :=
   else if isAtom a then .ok a
   else if op = "+" then ufuncReduce .add a        -- `len(a) == 1 -> a[0]` is ufuncReduce's one-item case
   else if op = "*" then ufuncReduce .mul a
-  else if op = "|" then ufuncReduce .max a        -- np.max (rank 1) / functools.reduce(np.maximum) (rank >= 2)
-  else if op = "&" then ufuncReduce .min a
+  else if op = "|" then overMinMax .max a
+  else if op = "&" then overMinMax .min a
   else match items a with
     | [x] => .ok x
     | _ => .ok .unmod
@@ -657,6 +670,12 @@ def npReduceInit (op : AOp) (a : NV) : Res :=
   | .undef => .ok .undef
   | .sc s => .ok (.sc s)
   | a => if isAtom a then .raised else ufuncReduce op a
+
+/-- `np.<ufunc>.reduce(_kg_numeric(x), initial=None)`: the guard raises for an object array -/
+def npReduceNumeric (op : AOp) (a : NV) : Res :=
+  match a with
+  | .obj _ => .raised
+  | a => npReduceInit op a
 
 /-- `np.<ufunc>.accumulate(x)`: raises for a scalar -/
 def npAccumulate (op : AOp) (a : NV) : Res :=
@@ -730,6 +749,8 @@ def unSem (t : String × String) : Option (NV → Res) :=
   else if t = ("(-", ")") then some pyNeg
   else if t = ("np.add.reduce(", ", initial=None)") then some (npReduceInit .add)
   else if t = ("np.multiply.reduce(", ", initial=None)") then some (npReduceInit .mul)
+  else if t = ("np.maximum.reduce(_kg_numeric(", "), initial=None)") then some (npReduceNumeric .max)
+  else if t = ("np.minimum.reduce(_kg_numeric(", "), initial=None)") then some (npReduceNumeric .min)
   else if t = ("np.maximum.reduce(", ", initial=None)") then some (npReduceInit .max)
   else if t = ("np.minimum.reduce(", ", initial=None)") then some (npReduceInit .min)
   else if t = ("np.add.accumulate(", ")") then some (npAccumulate .add)
